@@ -801,6 +801,24 @@ func (fr *Frame) evalCall(e *CExpr, env *Env, hint *Sort) *GVal {
 	case "inRange":
 		x := arg(0, SInt)
 		return tv(And(Le(minInt, x), Le(x, maxInt)))
+	case "toRune":
+		return tv(bvResize(arg(0, SBV8), 32, false))
+	case "toByte":
+		return tv(bvResize(arg(0, SBV32), 8, false))
+	case "bytesOf":
+		si := w.sliceSort(SBV8)
+		ex.p.DeclareFun("gs.to_"+sortIdent(SBV8), []*Sort{SStr}, si.S)
+		// the non-nil slice holding the bytes of the string (the form a conversion []byte(s) takes)
+		t := App("gs.to_"+sortIdent(SBV8), si.S, arg(0, SStr))
+		return tv(w.MkSlice(SBV8, w.SlArr(t), w.SlLen(t), TFalse))
+	case "jsonDecodeStrOf", "replaceAll":
+		bs := w.sliceSort(SBV8)
+		if e.Name == "replaceAll" {
+			ex.p.DeclareFun("gs.replaceAll", []*Sort{SStr, SStr, SStr}, SStr)
+			return tv(App("gs.replaceAll", SStr, arg(0, SStr), arg(1, SStr), arg(2, SStr)))
+		}
+		ex.p.DeclareFun("jsonDecodeStr", []*Sort{bs.S}, SStr)
+		return tv(App("jsonDecodeStr", SStr, arg(0, bs.S)))
 	case "substr":
 		return tv(App("gs.sub", SStr, arg(0, SStr), arg(1, SInt), arg(2, SInt)))
 	case "byteAt":
